@@ -33,8 +33,8 @@ Definition Inv12 (s : tcore) (stc sts : sstate) (ccc scc : bool) (n : nat) : Pro
 Lemma P12_weaken srv key iv n d st : P12 srv key iv tag (S n) d st -> P12 srv key iv tag n d st.
 Proof. unfold P12. intros (?&?&?&?&?&?&?). repeat split; auto. lia. Qed.
 
-Inductive ev12 := ECcs (srv : bool) | EEnc (srv : bool) (rt : Z) (explicit content : bytes).
-Definition ev12_ok (e : ev12) : Prop := match e with ECcs _ => True | EEnc _ rt ex c => (rt = 22 \/ rt = 23) /\ len ex = 8 /\ len c < 65536 end.
+Inductive ev12 := ECcs (srv : bool) | EEnc (srv : bool) (rt : Z) (explicit content : bytes) | EPlain (srv : bool) (r : tls_record).
+Definition ev12_ok (e : ev12) : Prop := match e with ECcs _ => True | EEnc _ rt ex c => (rt = 22 \/ rt = 23) /\ len ex = 8 /\ len c < 65536 | EPlain _ r => r_type r = 22 end.
 
 (* a direction protects records only after its ChangeCipherSpec *)
 Fixpoint ordered (ccc scc : bool) (evs : list ev12) : Prop :=
@@ -42,6 +42,7 @@ Fixpoint ordered (ccc scc : bool) (evs : list ev12) : Prop :=
   | [] => True
   | ECcs srv :: t => ordered (if srv then ccc else true) (if srv then true else scc) t
   | EEnc srv _ _ _ :: t => (if srv then scc else ccc) = true /\ ordered ccc scc t
+  | EPlain srv _ :: t => (if srv then scc else ccc) = false /\ (if srv then ccc else scc) = true /\ ordered ccc scc t
   end.
 
 Fixpoint play12 (stc sts : sstate) (evs : list ev12) : result (sstate * sstate * list (bool * tls_record)) :=
@@ -52,6 +53,7 @@ Fixpoint play12 (stc sts : sstate) (evs : list ev12) : result (sstate * sstate *
       do x <- send12_aead_t C rt a tag (if srv then key_s else key_c) (if srv then salt_s else salt_c) version (if srv then sts else stc) ex c;
       do y <- play12 (if srv then stc else fst x) (if srv then fst x else sts) t;
       Ok (fst (fst y), snd (fst y), (srv, snd x) :: snd y)
+  | EPlain srv r :: t => do y <- play12 stc sts t; Ok (fst (fst y), snd (fst y), (srv, r) :: snd y)
   end.
 
 Definition app_of (e : ev12) : list (bool * option bytes * bool) :=
@@ -127,7 +129,7 @@ Theorem tls12_aead_session evs : forall s stc sts ccc scc stc' sts' rs,
 Proof.
   induction evs as [|e t IH]; intros s stc sts ccc scc stc' sts' rs HI Hok Hord H; cbn [play12] in H.
   - injection H as <- <- <-. exists s, [], ccc, scc. split; [reflexivity|split; [reflexivity|exact HI]].
-  - inversion Hok as [|? ? Hx Ht]; subst. destruct e as [srv|srv rt ex c].
+  - inversion Hok as [|? ? Hx Ht]; subst. destruct e as [srv|srv rt ex c|srv r].
     + destruct (play12 stc sts t) as [[[c2 s2] rs2]|] eqn:E2; [|discriminate]. cbn [bind fst snd] in H. injection H as <- <- <-.
       cbn [ordered] in Hord. cbn [length] in HI.
       assert (HIw : Inv12 s stc sts ccc scc (length t)).
@@ -143,6 +145,15 @@ Proof.
       destruct (IH s1 _ _ _ _ _ _ _ HI1 Ht Hord E2) as (s' & out & ccc' & scc' & Hr & Hm & HI').
       exists s', (o1 ++ out), ccc', scc'. split; [cbn [session_run]; rewrite Hh; cbn [bind fst snd]; rewrite Hr; reflexivity|].
       split; [|exact HI']. unfold data_entries in *. rewrite filter_app, map_app, Hd1, Hm. reflexivity.
+    + destruct (play12 stc sts t) as [[[c2 s2] rs2]|] eqn:E2; [|discriminate]. cbn [bind fst snd] in H. injection H as <- <- <-.
+      cbn [ordered] in Hord. destruct Hord as (Hown & Hpeer & Hord). cbn [length] in HI.
+      assert (HIw : Inv12 s stc sts ccc scc (length t)).
+      { destruct HI as (i1 & i2 & i3 & i4 & d & i5 & i6 & i7 & i8). unfold Inv12. split; [exact i1|]. split; [exact i2|]. split; [exact i3|]. split; [exact i4|]. exists d. split; [exact i5|]. split; [exact i6|]. split; apply P12_weaken; assumption. }
+      assert (Hh : handle_tls_record C tbl parts keylog s r srv = Ok (s, [meta_entry r srv])).
+      { destruct HI as (_ & _ & i3 & i4 & _). apply plain_after_peer_ccs; [exact Hx|rewrite i3, i4; exact Hown|rewrite i3, i4; exact Hpeer]. }
+      destruct (IH s _ _ _ _ _ _ _ HIw Ht Hord E2) as (s' & out & ccc' & scc' & Hr & Hm & HI').
+      exists s', ([meta_entry r srv] ++ out), ccc', scc'. split; [cbn [session_run]; rewrite Hh; cbn [bind fst snd]; rewrite Hr; reflexivity|].
+      split; [|exact HI']. unfold data_entries in *. rewrite filter_app, map_app, Hm. reflexivity.
 Qed.
 End Session12.
 
@@ -173,8 +184,8 @@ Definition Inv12 (s : tcore) (stc sts : sstate) (ccc scc : bool) (n : nat) : Pro
 Lemma P12_weaken srv key iv n d st : P12 srv key iv tag (S n) d st -> P12 srv key iv tag n d st.
 Proof. unfold P12. intros (?&?&?&?&?&?&?). repeat split; auto. lia. Qed.
 
-Inductive ev12 := ECcs (srv : bool) | EEnc (srv : bool) (rt : Z) (content : bytes).
-Definition ev12_ok (e : ev12) : Prop := match e with ECcs _ => True | EEnc _ rt c => (rt = 22 \/ rt = 23) /\ len c < 65536 end.
+Inductive ev12 := ECcs (srv : bool) | EEnc (srv : bool) (rt : Z) (content : bytes) | EPlain (srv : bool) (r : tls_record).
+Definition ev12_ok (e : ev12) : Prop := match e with ECcs _ => True | EEnc _ rt c => (rt = 22 \/ rt = 23) /\ len c < 65536 | EPlain _ r => r_type r = 22 end.
 
 (* a direction protects records only after its ChangeCipherSpec *)
 Fixpoint ordered (ccc scc : bool) (evs : list ev12) : Prop :=
@@ -182,6 +193,7 @@ Fixpoint ordered (ccc scc : bool) (evs : list ev12) : Prop :=
   | [] => True
   | ECcs srv :: t => ordered (if srv then ccc else true) (if srv then true else scc) t
   | EEnc srv _ _ :: t => (if srv then scc else ccc) = true /\ ordered ccc scc t
+  | EPlain srv _ :: t => (if srv then scc else ccc) = false /\ (if srv then ccc else scc) = true /\ ordered ccc scc t
   end.
 
 Fixpoint play12 (stc sts : sstate) (evs : list ev12) : result (sstate * sstate * list (bool * tls_record)) :=
@@ -192,6 +204,7 @@ Fixpoint play12 (stc sts : sstate) (evs : list ev12) : result (sstate * sstate *
       do x <- send12_chacha_t C rt (if srv then key_s else key_c) (if srv then salt_s else salt_c) version (if srv then sts else stc) c;
       do y <- play12 (if srv then stc else fst x) (if srv then fst x else sts) t;
       Ok (fst (fst y), snd (fst y), (srv, snd x) :: snd y)
+  | EPlain srv r :: t => do y <- play12 stc sts t; Ok (fst (fst y), snd (fst y), (srv, r) :: snd y)
   end.
 
 Definition app_of (e : ev12) : list (bool * option bytes * bool) :=
@@ -267,7 +280,7 @@ Theorem tls12_chacha_session evs : forall s stc sts ccc scc stc' sts' rs,
 Proof.
   induction evs as [|e t IH]; intros s stc sts ccc scc stc' sts' rs HI Hok Hord H; cbn [play12] in H.
   - injection H as <- <- <-. exists s, [], ccc, scc. split; [reflexivity|split; [reflexivity|exact HI]].
-  - inversion Hok as [|? ? Hx Ht]; subst. destruct e as [srv|srv rt c].
+  - inversion Hok as [|? ? Hx Ht]; subst. destruct e as [srv|srv rt c|srv r].
     + destruct (play12 stc sts t) as [[[c2 s2] rs2]|] eqn:E2; [|discriminate]. cbn [bind fst snd] in H. injection H as <- <- <-.
       cbn [ordered] in Hord. cbn [length] in HI.
       assert (HIw : Inv12 s stc sts ccc scc (length t)).
@@ -283,6 +296,15 @@ Proof.
       destruct (IH s1 _ _ _ _ _ _ _ HI1 Ht Hord E2) as (s' & out & ccc' & scc' & Hr & Hm & HI').
       exists s', (o1 ++ out), ccc', scc'. split; [cbn [session_run]; rewrite Hh; cbn [bind fst snd]; rewrite Hr; reflexivity|].
       split; [|exact HI']. unfold data_entries in *. rewrite filter_app, map_app, Hd1, Hm. reflexivity.
+    + destruct (play12 stc sts t) as [[[c2 s2] rs2]|] eqn:E2; [|discriminate]. cbn [bind fst snd] in H. injection H as <- <- <-.
+      cbn [ordered] in Hord. destruct Hord as (Hown & Hpeer & Hord). cbn [length] in HI.
+      assert (HIw : Inv12 s stc sts ccc scc (length t)).
+      { destruct HI as (i1 & i2 & i3 & i4 & d & i5 & i6 & i7 & i8). unfold Inv12. split; [exact i1|]. split; [exact i2|]. split; [exact i3|]. split; [exact i4|]. exists d. split; [exact i5|]. split; [exact i6|]. split; apply P12_weaken; assumption. }
+      assert (Hh : handle_tls_record C tbl parts keylog s r srv = Ok (s, [meta_entry r srv])).
+      { destruct HI as (_ & _ & i3 & i4 & _). apply plain_after_peer_ccs; [exact Hx|rewrite i3, i4; exact Hown|rewrite i3, i4; exact Hpeer]. }
+      destruct (IH s _ _ _ _ _ _ _ HIw Ht Hord E2) as (s' & out & ccc' & scc' & Hr & Hm & HI').
+      exists s', ([meta_entry r srv] ++ out), ccc', scc'. split; [cbn [session_run]; rewrite Hh; cbn [bind fst snd]; rewrite Hr; reflexivity|].
+      split; [|exact HI']. unfold data_entries in *. rewrite filter_app, map_app, Hm. reflexivity.
 Qed.
 End Session12Chacha.
 End Chacha.
